@@ -78,6 +78,7 @@ type H struct {
 	K   *Keeper
 	S   msgServer
 	sfx string // suffix for nondet names that must differ between two states
+	wild bool  // C20: no input-shape assumptions (non-ASCII strings, absent amounts)
 
 	Role       [5]string // by slot; Role[slotPending] valid iff PendingSet
 	PendingSet bool
@@ -135,6 +136,20 @@ func newH(sfx string) *H {
 const roleCap = 6
 
 func asciiStr(s string) bool { return verifrt.IsASCII(s) }
+
+// shape is an input-shape assumption, dropped in wild mode (C20).
+func (h *H) shape(b bool) {
+	if !h.wild {
+		verifrt.Assume(b)
+	}
+}
+
+func (h *H) amount(name string) math.Int {
+	if h.wild {
+		return verifrt.NondetInt(name)
+	}
+	return verifrt.NondetIntNonNil(name)
+}
 
 // setupRoles stores four arbitrary role strings and an optional pending owner (RI R1).
 func (h *H) setupRoles() {
@@ -362,11 +377,11 @@ func (h *H) callAdmin(idx int, from string) (ok bool, panicked bool) {
 			_, err = h.S.AcceptOwner(ctx, &types.MsgAcceptOwner{From: from})
 		case hEnableAttester:
 			h.M.Attester = verifrt.NondetString("m_attester", attCap)
-			verifrt.Assume(asciiStr(h.M.Attester))
+			h.shape(asciiStr(h.M.Attester))
 			_, err = h.S.EnableAttester(ctx, &types.MsgEnableAttester{From: from, Attester: h.M.Attester})
 		case hDisableAttester:
 			h.M.Attester = verifrt.NondetString("m_attester", attCap)
-			verifrt.Assume(asciiStr(h.M.Attester))
+			h.shape(asciiStr(h.M.Attester))
 			_, err = h.S.DisableAttester(ctx, &types.MsgDisableAttester{From: from, Attester: h.M.Attester})
 		case hUpdateSignatureThreshold:
 			h.M.Amount32 = verifrt.NondetU32("m_amount")
@@ -384,19 +399,19 @@ func (h *H) callAdmin(idx int, from string) (ok bool, panicked bool) {
 			_, err = h.S.UpdateMaxMessageBodySize(ctx, &types.MsgUpdateMaxMessageBodySize{From: from, MessageSize: h.M.Size})
 		case hSetMaxBurnAmountPerMessage:
 			h.M.Local = verifrt.NondetString("m_local", 4)
-			verifrt.Assume(asciiStr(h.M.Local))
-			_, err = h.S.SetMaxBurnAmountPerMessage(ctx, &types.MsgSetMaxBurnAmountPerMessage{From: from, LocalToken: h.M.Local, Amount: verifrt.NondetIntNonNil("m_limit")})
+			h.shape(asciiStr(h.M.Local))
+			_, err = h.S.SetMaxBurnAmountPerMessage(ctx, &types.MsgSetMaxBurnAmountPerMessage{From: from, LocalToken: h.M.Local, Amount: h.amount("m_limit")})
 		case hLinkTokenPair:
 			h.M.Domain = verifrt.NondetU32("m_domain")
 			h.M.Token = verifrt.NondetBytesOrNil("m_token", 33)
 			h.M.Local = verifrt.NondetString("m_local", 4)
-			verifrt.Assume(asciiStr(h.M.Local))
+			h.shape(asciiStr(h.M.Local))
 			_, err = h.S.LinkTokenPair(ctx, &types.MsgLinkTokenPair{From: from, RemoteDomain: h.M.Domain, RemoteToken: h.M.Token, LocalToken: h.M.Local})
 		case hUnlinkTokenPair:
 			h.M.Domain = verifrt.NondetU32("m_domain")
 			h.M.Token = verifrt.NondetBytesOrNil("m_token", 33)
 			h.M.Local = verifrt.NondetString("m_local", 4)
-			verifrt.Assume(asciiStr(h.M.Local))
+			h.shape(asciiStr(h.M.Local))
 			_, err = h.S.UnlinkTokenPair(ctx, &types.MsgUnlinkTokenPair{From: from, RemoteDomain: h.M.Domain, RemoteToken: h.M.Token, LocalToken: h.M.Local})
 		case hAddRemoteTokenMessenger:
 			h.M.Domain = verifrt.NondetU32("m_domain")
@@ -472,22 +487,22 @@ func (h *H) callUser(idx int, c userCaps) (ok bool, panicked bool, m *userMsg) {
 	panicked = verifrt.Catch(func() {
 		switch idx {
 		case hDepositForBurn:
-			m.Amount = verifrt.NondetIntNonNil("m_amount")
+			m.Amount = h.amount("m_amount")
 			m.Domain = verifrt.NondetU32("m_domain")
 			m.Recipient = verifrt.NondetBytesOrNil("m_mint_recipient", 33)
 			m.BurnToken = verifrt.NondetString("m_burn_token", c.denom)
-			verifrt.Assume(asciiStr(m.BurnToken))
+			h.shape(asciiStr(m.BurnToken))
 			resp, e := h.S.DepositForBurn(ctx, &types.MsgDepositForBurn{From: m.From.Str, Amount: m.Amount, DestinationDomain: m.Domain, MintRecipient: m.Recipient, BurnToken: m.BurnToken})
 			err = e
 			if resp != nil {
 				m.Nonce = resp.Nonce
 			}
 		case hDepositForBurnWithCaller:
-			m.Amount = verifrt.NondetIntNonNil("m_amount")
+			m.Amount = h.amount("m_amount")
 			m.Domain = verifrt.NondetU32("m_domain")
 			m.Recipient = verifrt.NondetBytesOrNil("m_mint_recipient", 33)
 			m.BurnToken = verifrt.NondetString("m_burn_token", c.denom)
-			verifrt.Assume(asciiStr(m.BurnToken))
+			h.shape(asciiStr(m.BurnToken))
 			m.Caller = verifrt.NondetBytesOrNil("m_caller", 33)
 			resp, e := h.S.DepositForBurnWithCaller(ctx, &types.MsgDepositForBurnWithCaller{From: m.From.Str, Amount: m.Amount, DestinationDomain: m.Domain, MintRecipient: m.Recipient, BurnToken: m.BurnToken, DestinationCaller: m.Caller})
 			err = e
